@@ -66,7 +66,11 @@ def make(seed, model, K, D, pk, pert, sk, gk, tag):
         g = np.ones(N)
     if model != 'gmm':
         y = y * g[:, None]
+    elif gk.startswith('all'):
+        y = y * float(gk[3:])
     order = r.permutation(N)
+    if model == 'gmm' and gk.startswith('all'):
+        P = P * float(gk[3:])
     return y[order], labels[order], P
 
 
@@ -138,8 +142,10 @@ def run(key):
         data = (y, emb)
     else:
         data = y
-    b = 0.0 if blur == 'onehot' else 0.4
+    b = 0.0 if blur in ('onehot', 'onehot_int') else 0.4
     init = A.partition_affiliation(labels, K, blur=b, lead=lead)
+    if blur == 'onehot_int':
+        init = init.astype(np.int64)        # the true partition as an integer 0/1 array
     if gk == 'f32':
         # single precision for the real (vMF) stream; the complex observation of the integration model stays double
         data = (data[0], np.asarray(data[1]).astype(np.float32)) if integ else data.astype(np.float32)
@@ -174,14 +180,16 @@ def run(key):
                         f'true class after {its} iterations')
     # parameters point at the prototypes
     limit_tight = 10 * pert + (1e-3 if gk == 'f32' else 1e-6)
+    if model == 'gmm' and gk.startswith('all'):
+        limit_tight *= float(gk[3:])      # distances between means scale with the data
     worst = 0.0
     sizes = class_sizes(K, D, sk)
     # a blurred start keeps class k's own prototype dominant in its first M-step only if
     # (1-b) n_k clearly exceeds b/(K-1) n_j; otherwise "points at the prototype" is not defined
     # before EM has converged (mathematics of the blurred partition, not of the implementation)
     dominant = all((1 - b) * sizes[k] >= 1.5 * (b / max(K - 1, 1)) * max(sizes) for k in range(K))
-    check_assoc = blur == 'onehot' or dominant
-    check_tight = blur == 'onehot' or its >= 20
+    check_assoc = blur in ('onehot', 'onehot_int') or dominant
+    check_tight = blur in ('onehot', 'onehot_int') or its >= 20
     secondary = []
     if integ:
         PE_ = PE
@@ -241,7 +249,8 @@ def subchecks(tier, seed):
                             else (0.0, 1e-3, 1e-2)
                         for pert in perts:
                             for sk in ('equal', 'unequal'):
-                                gks = ('one',) if model == 'gmm' else ('one', 'phasor', 'mag', 'extreme')
+                                # GMM: one common scale of the whole data set (the fixed point is scale equivariant)
+                                gks = ('one', 'all1e-6', 'all1e6') if model == 'gmm' else ('one', 'phasor', 'mag', 'extreme')
                                 if model in ('vmfmm', 'vmfcacgmm'):
                                     gks = gks + ('f32',)      # single-precision observations and start
                                 for gk in gks:
@@ -249,7 +258,9 @@ def subchecks(tier, seed):
                                         continue
                                     if gk == 'f32' and pert == 0.0:
                                         continue     # exactly collinear classes are degenerate in single precision
-                                    for blur in ('onehot', 'blur'):
+                                    for blur in ('onehot', 'blur', 'onehot_int'):
+                                        if blur == 'onehot_int' and (gk != 'one' or sk != 'equal' or pert != 1e-3 or integ):
+                                            continue
                                         if pert == 1e-9 and blur != 'onehot':
                                             # a blurred class covariance has condition number (1/pert)^2 = 1e18:
                                             # not representable in double precision
